@@ -246,6 +246,14 @@ class EnvironmentDataDescription(ComplexDop):
                     odxraise()  # make mypy happy...
                     return
 
+            if param_value is None:
+                # the value of the referenced parameter is not known,
+                # e.g., because it could not be decoded in non-strict
+                # mode
+                odxraise(f"No value available for parameter '{param.short_name}' which is "
+                         f"referenced by ENV-DATA-DESC '{self.short_name}'")
+                return cast(int, None)
+
             if isinstance(dop, DtcDop):
                 return dop.convert_to_numerical_trouble_code(odxrequire(param_value))
             elif isinstance(dop, DataObjectProperty):
